@@ -124,6 +124,7 @@ SPEC = {
     "post": post,
     "rule": "cases = search directions recorded at the exit of DefaultKKTSystem::solve (first ten of each of ~70 traced solves over all cone kinds, affine and combined), each re-evaluated exactly (dyadic arithmetic in Coq) against the x-, z-, kappa- and tau-equations of theorem C06_newton_equations with relative tolerance 2^-10 of the terms involved (plus an absolute floor 2^-30 max(1,|q|,|b|) for quantities at rounding level; measured worst case on the unchanged tree: 6e-7); plus the starting point recorded at the exit of solve_initial_point of every traced symmetric-cone solve, checked against the primal rows and the dual equality of theorems C06_init_point_qp / _lp (c_init); plus one case per iteration (first six of every traced solve) re-evaluating exactly the residual definitions of residuals.rs, the affine and combined right-hand sides of variables.rs (x, z, tau, kappa components), mu and the add_step update on the recorded iterates (c_step, relative 2^-30 / 2^-45), the hypotheses of theorem C06_residual_reduction; plus the exploration of family G (2000 planted strictly feasible instances, sizes 1..60, all cone mixtures, magnitudes <= 1e3, default settings) whose solved-rate and iteration quantiles are recorded. Non-trivial = direction of a problem with at least one constraint row; distinct = distinct (problem, direction index).",
     "level": "other",
+    "structure_code": None,
     "explanation": "Partial by nature: the statement (>= 99.5 % of family G ends Solved, p95 of iterations under an envelope) is statistical. Proved in Coq (all dimensions, reals): the direction assembled by DefaultKKTSystem::solve from two exact quasi-definite solves satisfies the five linearised equations of the homogeneous embedding (C06_newton_equations) and the centering parameter lies in [0,1]. Tied to the code by exact re-evaluation of the four H-free equations on recorded directions. The convergence statistics are measured on family G on every run and a shortfall beyond sampling noise is reported as a violation with the failing instances as replay.",
     "assumptions": ["the KKT solves are treated as exact in the theorem; the run tolerates 2^-10 relative residual (static regularisation + iterative refinement)",
                     "family G is this framework's generator (harness/src/bin/c06.rs), conditioned so that n <= m or P is strictly convex"],
